@@ -22,7 +22,8 @@ RULE = ("seeded random circuits (trees with heralded sub-circuits, directly decl
 MANDATORY = ["bunched_input", "vacuum_input", "herald_in_ne_out", "herald_photons", "lossy",
              "explicit_outputs", "input_list", "reject_wrong_length", "reject_negative",
              "reject_noninteger", "reject_bool", "reject_photon_mismatch", "reject_nonstate",
-             "simulator_reused_after_change", "five_or_more_photons", "seven_or_more_modes", "same_call_repeated",
+             "simulator_reused_after_change", "refused_request_between_change_and_next_question",
+             "earlier_question_asked_again_after_change", "five_or_more_photons", "seven_or_more_modes", "same_call_repeated",
              "herald_declared_in_place"]
 DECIDING = ["mon.sim_postconditions", "mon.sim_amplitudes_checked", "rejections_checked"]
 BUDGET = {"quick": 25, "thorough": 420}
@@ -332,8 +333,26 @@ def run(ctx):
                 ctx.bucket("simulator_reused_after_change")
                 st = State(random_state(rng, k, int(rng.integers(0, 3))))
                 case = {"circuit": log, "inputs": [st.s], "outputs": None, "reused_simulator": True}
+                if rng.random() < 0.5:
+                    # a request the simulator must refuse comes first, on the changed circuit
+                    bad = [State([1] * (k + 1)), State([-1] + [0] * max(0, k - 1)), State([0.5] + [0] * max(0, k - 1)),
+                           "outputs_mismatch"][int(rng.integers(4))]
+                    try:
+                        if isinstance(bad, str):
+                            sim.simulate(State([1] + [0] * (k - 1)), State([2] + [0] * (k - 1)))
+                        else:
+                            sim.simulate(bad)
+                    except Exception as e:  # noqa: BLE001  (the exception-path monitor judges it)
+                        ctx.count("refused_after_change:" + type(e).__name__)
+                    ctx.bucket("refused_request_between_change_and_next_question")
+                    case["refused_request_first"] = True
                 try:
                     sim.simulate(st)
+                    if c.input_modes == len(ins[0]):
+                        # and a question this simulator has already answered before the change
+                        ctx.bucket("earlier_question_asked_again_after_change")
+                        case["inputs"].append([s_.s for s_ in ins])
+                        sim.simulate(arg_in, outs)
                 except Exception as e:  # noqa: BLE001
                     ctx.count("simulate_raised:" + type(e).__name__)
                 ctx.case(("reuse", k, len(c.heralds["input"])), True)
